@@ -40,11 +40,12 @@ def make_trip_classes():
             def wrapper(self, *a, _m=m, **k):
                 if not getattr(self, "_armed", False):
                     return getattr(base, _m)(self, *a, **k)
-                before = base(self)  # small containers: a copy is cheap; a mutator call that changes nothing is not a write
+                plain = list if issubclass(base, list) else (set if issubclass(base, set) else dict)
+                before = plain(self)  # small containers: a copy is cheap; a mutator call that changes nothing is not a write
                 try:
                     return getattr(base, _m)(self, *a, **k)
                 finally:
-                    changed = (list(before) != list(self)) if base is list else (before != base(self))
+                    changed = before != plain(self)
                     if changed:
                         stack = [f"{f.filename.split('/geneticengine/')[-1]}:{f.lineno}:{f.name}" for f in traceback.extract_stack()[:-1] if "/geneticengine/" in f.filename or "/geml/" in f.filename][-3:]
                         EVENTS.append({"container": getattr(self, "_label", "?"), "method": _m, "args": core.short(a, 120), "stack": stack})
@@ -54,16 +55,25 @@ def make_trip_classes():
 
     TL = rec_factory("TripList", list, ["append", "extend", "insert", "remove", "pop", "clear", "sort", "reverse", "__setitem__", "__delitem__", "__iadd__", "__imul__"])
     TD = rec_factory("TripDict", dict, ["__setitem__", "__delitem__", "pop", "popitem", "clear", "update", "setdefault"])
+    import collections
+
+    global TripDefaultDict
+    TripDefaultDict = rec_factory("TripDefaultDict", collections.defaultdict, ["__setitem__", "__delitem__", "pop", "popitem", "clear", "update", "setdefault", "__missing__"])
     TS = rec_factory("TripSet", set, ["add", "remove", "discard", "pop", "clear", "update", "difference_update", "intersection_update", "symmetric_difference_update", "__ior__", "__iand__", "__isub__", "__ixor__"])
     return TL, TD, TS
 
 
+TripDefaultDict = None
 TripList, TripDict, TripSet = make_trip_classes()
 
 
 def arm(g, classes):
     """Replaces the grammar's containers by recording subclasses (per instance)."""
-    alts = TripDict()
+    import collections
+
+    # the recording containers keep the TYPE semantics of what they replace (a defaultdict stays a defaultdict):
+    # instrumentation must not change the behaviour under observation
+    alts = TripDefaultDict(g.alternatives.default_factory) if isinstance(g.alternatives, collections.defaultdict) else TripDict()
     for k, v in g.alternatives.items():
         tl = TripList(v)
         tl._label = f"alternatives[{k.__name__}]"
@@ -72,7 +82,7 @@ def arm(g, classes):
     alts._label = "alternatives"
     alts._armed = True
     g.alternatives = alts
-    d = TripDict(g.distanceToTerminal)
+    d = TripDefaultDict(g.distanceToTerminal.default_factory, g.distanceToTerminal) if isinstance(g.distanceToTerminal, collections.defaultdict) else TripDict(g.distanceToTerminal)
     d._label, d._armed = "distanceToTerminal", True
     g.distanceToTerminal = d
     for name in ("recursive_prods", "all_nodes", "terminals", "non_terminals"):
@@ -182,7 +192,7 @@ def gen_cases(tier, seed):
         for rk in ("tree", "ge", "stack"):
             yield {"kind": "gf", "desc": desc, "repr": rk, "decider": "progressive" if rk != "stack" else "own", "extra_depth": 4, "seed": rng.randrange(10**6), "nops": rng.randint(10, 24), "search": rng.choice(["gp", "rs", None])}
     for desc in grammars.family(seed + 3, max(6, n // 8), "unproductive-part", with_fixed=False):  # Grammar.get_max_node_depth() is "infinite" here
-        for rk, dk in (("tree", "progressive"), ("ge", "progressive"), ("sge", "progressive"), ("tree", "maxdepth"), ("tree", "pigrow")):
+        for rk, dk in (("tree", "progressive"), ("ge", "progressive"), ("sge", "progressive"), ("tree", "maxdepth"), ("tree", "pigrow"), ("stack", "own"), ("dsge", "own")):
             yield {"kind": "gf", "desc": desc, "repr": rk, "decider": dk, "extra_depth": rng.choice([1, 2, 3]), "seed": rng.randrange(10**6), "nops": rng.randint(8, 16), "search": None, "unproductive_part": True}
     for i in range(n // 4):
         for rk, dk in workload.config_grid(rng):
